@@ -7,7 +7,8 @@ import itertools
 from mc import pool, wire, refms
 
 BODIES = [b"keep;\r\n", b"keep;\n# x\n", b"stop;", b"", b"OK\r\n{5}\r\nNO \"x\"\r\n", b"# \xc3\xa9\r\nkeep;\r\n",
-          b"# a\xe2\x80\xa8b\x0cc\xc2\x85d\x1ce\r\nkeep;\r\n"]  # U+2028, FF, U+0085, FS are not line ends
+          b"# a\xe2\x80\xa8b\x0cc\xc2\x85d\x1ce\r\nkeep;\r\n",
+          b"# moved from c:\\filters\\old\r\nkeep;\r\n"]  # backslashes, no double quote  # U+2028, FF, U+0085, FS are not line ends
 VERBS = ["LISTSCRIPTS", "GETSCRIPT", "PUTSCRIPT", "SETACTIVE", "DELETESCRIPT"]
 ACTIONS = ["NO", "BYE", "SILENCE", "EOF", "DROP-REPLY", "NO-BARE"]  # DROP-REPLY: executed by the server, the reply never arrives
 
